@@ -413,6 +413,24 @@ def run_case(rng, ctx):
                    normal_form=lambda: safe_repr(reference),
                    normal_form_offsets=lambda: reference.offsets,
                    again=lambda: safe_repr(again), extra_steps=len(extra_steps))
+        # history: a caller edits the lists that the accessors of the normal
+        # form handed out (to build another member of the class by hand); the
+        # normal form is a value: it stays what it was and stays a fixed point
+        nf_key = struct.key(reference)
+        handed_offsets, handed_boxes = reference.offsets, reference.boxes
+        if handed_offsets:
+            handed_offsets[0] += 1
+            handed_offsets.reverse()
+            handed_boxes.reverse()
+        handed_offsets.append(0)
+        steps_after = list(itertools.islice(reference.normalize(left=left), 3))\
+            if struct.key(reference) == nf_key else None
+        ctx.expect("idempotent", steps_after == [],
+                   where="after the caller edited the lists returned by "
+                   ".offsets and .boxes of the normal form", left=left,
+                   diagram=lambda: safe_repr(d),
+                   normal_form_offsets_now=lambda: list(reference.offsets),
+                   same_value_as_before=struct.key(reference) == nf_key)
         if not connected:
             continue
         ref_key = struct.key(reference)
